@@ -1,4 +1,162 @@
-(* placeholder until C14/Proofs*.v land: nothing is claimed proved yet *)
-From V Require Import C14.Glue.
-Theorem c14_placeholder : True. Proof. exact I. Qed.
-Print Assumptions c14_placeholder.
+(* C14 - TraceState stays a valid, duplicate-free W3C list under every update.
+   Every theorem is about the executable Gallina models of trace_state.h / kv_properties.h /
+   string_util.h:  C14/Impl.v (index- and capacity-level, the one diffed against the C++ on every
+   run) and C14/Model.v (list-level).  Statements only; the proofs are in C14/Proofs*.v.
+   wf l              := every key passes IsValidKey, every value IsValidValue, at most 32 members
+   reachable_from a l:= l is obtained from a by any finite sequence of Set / Delete
+   keys l            := the keys in order;  a_count k l := how many members have key k
+   members_from h i  := the non-empty trimmed comma-separated fields of h[i..]                  *)
+From V Require Import C14.Glue C14.ProofsBase C14.ProofsRx C14.Proofs C14.ProofsImpl C14.ProofsSpec.
+
+(* ---- the validators are the W3C grammar (regex literals re-translated from trace_state.h on every run) *)
+Theorem valid_key_iff_grammar : forall k : bytes, is_valid_key k = g_valid_key k.
+Proof. exact ProofsRx.valid_key_iff_grammar. Qed.
+Print Assumptions valid_key_iff_grammar.
+
+Theorem valid_value_iff_grammar : forall v : bytes, is_valid_value v = g_valid_value v.
+Proof. exact ProofsRx.valid_value_iff_grammar. Qed.
+Print Assumptions valid_value_iff_grammar.
+
+(* ---- sentence 1: every state obtained by parsing or by Set/Delete has only grammatical members, at most 32 *)
+Theorem ts_wf_invariant : forall (h : bytes) (l : tstate), reachable_from (from_header h) l -> wf l.
+Proof. exact Proofs.ts_wf_invariant. Qed.
+Print Assumptions ts_wf_invariant.
+
+Theorem ts_wf_invariant_from : forall l0 l : tstate, wf l0 -> reachable_from l0 l -> wf l.
+Proof. exact Proofs.ts_wf_invariant_from. Qed.
+Print Assumptions ts_wf_invariant_from.
+
+Theorem ts_wf_invariant_seq : forall (h : bytes) (us : list upd), wf (fold_left apply_upd us (from_header h)).
+Proof. exact Proofs.ts_wf_invariant_seq. Qed.
+Print Assumptions ts_wf_invariant_seq.
+
+Theorem wf_is_the_grammar : forall l : tstate, wf l <-> wf_state l = true.
+Proof. exact Proofs.wf_iff. Qed.
+Print Assumptions wf_is_the_grammar.
+
+(* duplicate-freedom is preserved by every update (FromHeader itself keeps a repeated key: the
+   property text does not ask it to reject one; see Proofs.from_header_keeps_repeated_key) *)
+Theorem ts_nodup_invariant : forall l0 l : tstate, NoDup (keys l0) -> reachable_from l0 l -> NoDup (keys l).
+Proof. exact Proofs.ts_nodup_invariant. Qed.
+Print Assumptions ts_nodup_invariant.
+
+(* ---- sentence 2: Set *)
+Theorem set_spec : forall (k v : bytes) (l : tstate),
+  (is_valid_key k = true -> is_valid_value v = true -> (has_key k l = true \/ length l < kMaxKeyValuePairs) ->
+     ts_set k v l = (k, v) :: filter (fun e => negb (bytes_eqb (fst e) k)) l) /\
+  (is_valid_key k = true -> is_valid_value v = true -> has_key k l = false -> kMaxKeyValuePairs <= length l ->
+     ts_set k v l = l) /\
+  (is_valid_key k = false \/ is_valid_value v = false -> ts_set k v l = []).
+Proof. exact Proofs.set_spec. Qed.
+Print Assumptions set_spec.
+
+Theorem set_no_duplicate : forall (k v : bytes) (l : tstate),
+  a_count k (ts_set k v l) <= 1 /\ (forall k', k' <> k -> a_count k' (ts_set k v l) <= a_count k' l).
+Proof. exact Proofs.set_no_duplicate. Qed.
+Print Assumptions set_no_duplicate.
+
+Theorem set_is_abstract_set : forall (k v : bytes) (l : tstate), ts_set k v l = spec_set k v l.
+Proof. exact Proofs.set_refines. Qed.
+Print Assumptions set_is_abstract_set.
+
+(* ---- sentence 3: Delete removes exactly the given key *)
+Theorem delete_spec : forall (k : bytes) (l : tstate),
+  (is_valid_key k = true -> ts_delete k l = filter (fun e => negb (bytes_eqb (fst e) k)) l) /\
+  (is_valid_key k = true -> has_key k (ts_delete k l) = false) /\
+  (is_valid_key k = true -> forall k', k' <> k -> ts_get k' (ts_delete k l) = ts_get k' l) /\
+  (is_valid_key k = false -> ts_delete k l = []).
+Proof. exact Proofs.delete_spec. Qed.
+Print Assumptions delete_spec.
+
+(* ---- sentence 4: Get returns the value most recently set (and the frame rules around it) *)
+Theorem get_after_set : forall (k v : bytes) (l : tstate),
+  is_valid_key k = true -> is_valid_value v = true -> (has_key k l = true \/ length l < kMaxKeyValuePairs) ->
+  ts_get k (ts_set k v l) = Some v.
+Proof. exact Proofs.get_after_set. Qed.
+Print Assumptions get_after_set.
+
+Theorem get_after_set_other : forall (k v : bytes) (l : tstate) (k' : bytes),
+  k' <> k -> ts_set k v l <> [] -> ts_get k' (ts_set k v l) = ts_get k' l.
+Proof. exact Proofs.get_after_set_other. Qed.
+Print Assumptions get_after_set_other.
+
+Theorem get_after_refused_set : forall (k v : bytes) (l : tstate) (k' : bytes),
+  is_valid_key k = true -> is_valid_value v = true -> has_key k l = false -> kMaxKeyValuePairs <= length l ->
+  ts_get k' (ts_set k v l) = ts_get k' l.
+Proof. exact Proofs.get_after_refused_set. Qed.
+Print Assumptions get_after_refused_set.
+
+Theorem get_after_delete : forall (k : bytes) (l : tstate), ts_get k (ts_delete k l) = None.
+Proof. exact Proofs.get_after_delete. Qed.
+Print Assumptions get_after_delete.
+
+(* ---- sentence 5: the original object is never modified; invalid / over-long => empty, never partial; round trip *)
+Theorem original_unchanged : forall (objs : list tstate) (o : op) (r : opobs) (newobj : option tstate),
+  model_step objs o = Some (r, newobj) ->
+  forall j l, nth_error objs j = Some l ->
+  nth_error (match newobj with Some n => objs ++ [n] | None => objs end) j = Some l.
+Proof. exact ProofsSpec.original_unchanged. Qed.
+Print Assumptions original_unchanged.
+
+Theorem invalid_yields_empty_not_partial : forall h : bytes,
+  (kMaxKeyValuePairs < num_tokens h -> from_header h = []) /\
+  ((exists m, In m (members h) /\
+              match split_kv m with
+              | None => True
+              | Some (k, v) => is_valid_key k = false \/ is_valid_value v = false
+              end) -> from_header h = []) /\
+  (from_header h = [] \/ Forall2 (fun m e => split_kv m = Some e) (members h) (from_header h)).
+Proof. exact Proofs.invalid_yields_empty_not_partial. Qed.
+Print Assumptions invalid_yields_empty_not_partial.
+
+Theorem from_header_is_declarative_parse : forall h : bytes, from_header h = spec_parse h.
+Proof. exact Proofs.from_header_refines. Qed.
+Print Assumptions from_header_is_declarative_parse.
+
+Theorem header_roundtrip : forall l : tstate, wf l -> from_header (to_header l) = l.
+Proof. exact Proofs.header_roundtrip. Qed.
+Print Assumptions header_roundtrip.
+
+Theorem reachable_roundtrip : forall (h : bytes) (l : tstate),
+  reachable_from (from_header h) l -> from_header (to_header l) = l.
+Proof. exact Proofs.reachable_roundtrip. Qed.
+Print Assumptions reachable_roundtrip.
+
+(* ---- the code-shaped model (index arithmetic, fixed-capacity arrays) computes the list-level functions *)
+Theorem tokenizer_refines_split : forall h : bytes,
+  num_tokens_ix h = num_tokens h /\
+  (forall i, match tok_next h i with
+             | None => members_from h i = []
+             | Some (kv, i') => exists m, members_from h i = m :: members_from h i' /\ kv = split_kv m /\ i < i'
+             end) /\
+  members_from h 0 = members h /\
+  from_header_ix h = from_header h.
+Proof. exact ProofsImpl.tokenizer_refines_split. Qed.
+Print Assumptions tokenizer_refines_split.
+
+Theorem trim_ix_spec : forall (s : bytes) (left right : nat),
+  left <= S right -> right < length s -> trim_ix s left right = trim_ws (substr s left (S right - left)).
+Proof. exact ProofsImpl.trim_ix_spec. Qed.
+Print Assumptions trim_ix_spec.
+
+Theorem set_ix_refines : forall (k v : bytes) (l : tstate), set_ix k v l = ts_set k v l.
+Proof. exact ProofsImpl.set_ix_refines. Qed.
+Print Assumptions set_ix_refines.
+
+Theorem delete_ix_refines : forall (k : bytes) (l : tstate), delete_ix k l = ts_delete k l.
+Proof. exact ProofsImpl.delete_ix_refines. Qed.
+Print Assumptions delete_ix_refines.
+
+Theorem get_ix_refines : forall (k : bytes) (l : tstate), get_ix k l = ts_get k l.
+Proof. exact ProofsImpl.get_ix_refines. Qed.
+Print Assumptions get_ix_refines.
+
+Theorem to_header_ix_refines : forall l : tstate, to_header_ix l = to_header l.
+Proof. exact ProofsImpl.to_header_ix_refines. Qed.
+Print Assumptions to_header_ix_refines.
+
+(* ---- the central theorem: the executable SPEC accepts the model's observation of every case *)
+Theorem model_meets_spec : forall (h : bytes) (ops : list op) (o0 : objobs) (rs : list stepobs),
+  model_case h ops = Some (o0, rs) -> spec_case h ops o0 rs = [].
+Proof. exact ProofsSpec.model_meets_spec. Qed.
+Print Assumptions model_meets_spec.
